@@ -20,6 +20,8 @@
 (*   "par_drop"   Parallel ignores a child's finish that is delivered while it is paused          *)
 (*   "stop_blk"   stop() does not withdraw a queued block notification                            *)
 (*   "held_stale" the held result re-posted by SerialAssembleAction::onResume cannot be withdrawn *)
+(*   "blk_multi"  a second block() of a node whose first block notification is still queued leaves *)
+(*                two of them queued; stop()/reset() withdraw only the newer one                  *)
 (*   "tmo_child"  a composite (other than CompositeAction) that finishes by itself (timeout)      *)
 (*                leaves its running child(ren) running                                           *)
 EXTENDS Integers, Sequences, FiniteSets, TLC
@@ -110,9 +112,19 @@ ResetAll(S0, cs) == IF cs = <<>> THEN S0 ELSE ResetAll(Reset(S0, Head(cs)), Tail
 StopCurr(S0, n) == IF S0.cur[n] # 0 THEN [Stop(S0, S0.cur[n]) EXCEPT !.cur[n] = 0] ELSE S0
 
 \* Action::block()
+\* withdraw the queued block notification of n (Action::block_cb_run_id_ names one task: the newest)
+CancelBlk(S0, n) ==
+  IF "blk_multi" \notin Bugs THEN Cancel(S0, "blk", n)
+  ELSE LET idxs == {i \in DOMAIN S0.q : S0.q[i].k = "blk" /\ S0.q[i].n = n} IN
+       IF idxs = {} THEN S0
+       ELSE LET m == CHOOSE i \in idxs : \A j \in idxs : j <= i IN
+            [S0 EXCEPT !.q = SubSeq(@, 1, m - 1) \o SubSeq(@, m + 1, Len(@))]
+
+\* Action::block(); a block notification that is still queued is replaced by the new one
 Block(S0, n, tag) ==
   IF S0.st[n] \in {"Finished", "Stoped"} THEN S0
-  ELSE PostQ([S0 EXCEPT !.st[n] = "Pause"], Item("blk", n, 0, FALSE, tag, S0.gen[n]))
+  ELSE LET S1 == IF "blk_multi" \in Bugs THEN S0 ELSE Cancel(S0, "blk", n) IN
+       PostQ([S1 EXCEPT !.st[n] = "Pause"], Item("blk", n, 0, FALSE, tag, S0.gen[n]))
 
 \* Action::finish()
 Finish(S0, n, succ, tag) ==
@@ -212,7 +224,7 @@ Stop(S0, n) ==
                    [] OTHER -> LET T == StopCurr(S1, n) IN
                                IF "held_stale" \in Bugs THEN [T EXCEPT !.held[n] = NoHeld]
                                ELSE Cancel([T EXCEPT !.held[n] = NoHeld], "held", n)
-           S3 == IF "stop_blk" \in Bugs THEN S2 ELSE Cancel(S2, "blk", n)
+           S3 == IF "stop_blk" \in Bugs THEN S2 ELSE CancelBlk(S2, n)
        IN Emit([S3 EXCEPT !.finals[n] = @ + 1], "final", n)
 
 \* Action::reset()
@@ -222,7 +234,7 @@ Reset(S0, n) ==
                    [] IsPar(n) -> LET T == ResetAll(S0, Kids(n)) IN
                                   [T EXCEPT !.pf = [c \in Nodes |-> IF Parent(c) = n THEN 0 ELSE T.pf[c]]]
                    [] OTHER -> [ResetAll(S0, Kids(n)) EXCEPT !.idx[n] = 0, !.cur[n] = 0, !.held[n] = NoHeld]
-           S2 == Cancel(Cancel(TimerOff(S1, n), "fin", n), "blk", n)
+           S2 == CancelBlk(Cancel(TimerOff(S1, n), "fin", n), n)
            S3 == IF "held_stale" \in Bugs THEN S2 ELSE Cancel(S2, "held", n)
        IN [S3 EXCEPT !.st[n] = "Idle", !.res[n] = "Unsure", !.gen[n] = @ + 1, !.finals[n] = 0,
                      !.tmo[n] = FALSE, !.iters[n] = 0]
